@@ -61,6 +61,7 @@ type lockState struct {
 
 // Locks is the result of the must-hold lockset analysis (engine E1).
 type Locks struct {
+	drops   map[*ssa.Function]map[string]int8
 	P       *ir.Prog
 	Entry   map[*ssa.Function]LockSet
 	before  map[ssa.Instruction]LockSet
@@ -480,7 +481,7 @@ func (l *Locks) Releases(f *ssa.Function, class string) []ssa.Instruction {
 						out = append(out, in)
 					}
 				} else if callee := ir.StaticCallee(&x.Call); callee != nil {
-					if l.summary[callee].releases[class] {
+					if l.summary[callee].releases[class] || l.Drops(callee, class) {
 						out = append(out, in)
 					}
 				}
@@ -503,6 +504,48 @@ func (l *Locks) Releases(f *ssa.Function, class string) []ssa.Instruction {
 		}
 	}
 	return out
+}
+
+// Drops reports that f, entered with class held by its caller, gives the lock
+// up for a while (an explicit unlock followed by a re-lock, directly or in a
+// static callee): the caller's critical section is split although the lock is
+// held again when f returns.
+func (l *Locks) Drops(f *ssa.Function, class string) bool {
+	if l.drops == nil {
+		l.drops = map[*ssa.Function]map[string]int8{}
+	}
+	if m, ok := l.drops[f]; ok {
+		if v, ok := m[class]; ok {
+			return v == 1
+		}
+	} else {
+		l.drops[f] = map[string]int8{}
+	}
+	l.drops[f][class] = 0 // cycle guard
+	res := false
+	if l.Entry[f][class] {
+		for _, b := range f.Blocks {
+			for _, in := range b.Instrs {
+				x, ok := in.(*ssa.Call)
+				if !ok {
+					continue
+				}
+				if cl, acq, ok := l.lockOp(&x.Call); ok {
+					if !acq && cl == class {
+						res = true
+					}
+				} else if callee := ir.StaticCallee(&x.Call); callee != nil && callee != f {
+					if l.HeldClass(in, class) && l.Drops(callee, class) {
+						res = true
+					}
+				}
+			}
+		}
+	}
+	if res {
+		l.drops[f][class] = 1
+	}
+	return res
 }
 
 // Acquires lists the instructions in f that acquire class.
